@@ -408,28 +408,42 @@ def run(ctx):
         bb = list(b) + [None] * (len(fts) - len(b))
         return [d for ft, x, y in zip(fts, aa, bb) for d in leaf_diffs(ft, x, y)]
 
+    def _float_explains(r_us, got):
+        """How int(float_seconds * 1000) can have produced ``got`` (ms) for the exact instant ``r_us`` (microseconds):
+        'exact-truncation' - got is int() (toward zero) of the exact value; 'float-noise' - the exact value lies within the
+        accumulated rounding error (three float operations, <= 5e-16 relative) of the interval int() maps to got; None otherwise."""
+        if got > 0:
+            lo, hi = got * 1000, got * 1000 + 999
+        elif got < 0:
+            lo, hi = got * 1000 - 999, got * 1000
+        else:
+            lo, hi = -999, 999
+        if lo <= r_us <= hi:
+            return 'exact-truncation'
+        dist = (lo - r_us) if r_us < lo else (r_us - hi)      # whole microseconds outside the interval (>= 1)
+        eps_us = abs(r_us) * 5e-16 + 1.0                       # +1: the interval ends are open by less than one microsecond
+        return 'float-noise' if dist <= eps_us else None
+
     def classify_ts(want, got, info):
-        """narrow mechanism slug for one wrong timestamp (want/got in ms)."""
-        err = got - want
+        """narrow mechanism slug for one wrong timestamp (want/got in ms, want = floor of the exact instant)."""
         sub = info.get("sub_ms", 0) if info else 0
         off = info.get("offset_error_ms", 0) if info else 0
+        r_us = want * 1000 + sub
         if off:
-            # the epoch's UTC offset was used instead of the value's own one (+-1 ms of float noise)
-            if abs(err - off) <= 1:
+            # the epoch's UTC offset was used instead of the value's own one; what remains must be explained by the float arithmetic
+            if _float_explains(r_us + off * 1000, got):
                 return "datetime-aware-offset-taken-at-epoch"
             return "datetime-wrong-instant"
-        if sub == 0:
-            if want > 0 and err == -1:
+        how = _float_explains(r_us, got)
+        if how == 'exact-truncation' and want < 0 and sub and got == want + 1:
+            return "datetime-sub-ms-rounded-toward-zero-before-epoch"
+        if how == 'float-noise':
+            if r_us > 0 and got == want - 1:
                 return "datetime-float-truncation-1ms-low"
-            if want < 0 and err == 1:
-                return "datetime-float-truncation-1ms-high-before-epoch"
-        else:
-            if want < 0 and err == 1:
-                return "datetime-sub-ms-rounded-toward-zero-before-epoch"
-            if want > 0 and err == 1 and sub >= 900:
+            if r_us > 0 and got == want + 1 and sub:
                 return "datetime-float-rounding-1ms-high-sub-ms"
-            if want > 0 and err == -1 and sub <= 100:
-                return "datetime-float-truncation-1ms-low"
+            if r_us < 0 and got > want:
+                return "datetime-float-truncation-1ms-high-before-epoch"
         return "datetime-wrong-instant"
 
     # ---------------------------------------------------------------- main loop
